@@ -283,3 +283,36 @@ package mapping
 //@   call processNamedFieldWithValue#*: assert arg_opts == po && hv && !u.opts.fillDefault
 //@   ensures implies(result == nil && looked && !hv, wres)
 //@   ensures implies(result == nil && looked && hv && !old(u.opts.fillDefault), vres)
+
+// struct level: every field of the target struct (and of a required embedded struct) is processed, in order, against the
+// same input object; success of the whole means success of every field
+//@ func (u *Unmarshaler) unmarshalWithFullName
+//@   property C08
+//@   requires m != nil
+//@   ghost at entry: total = 0 - 1
+//@   ghost at entry: done = 0
+//@   ghost at entry: inLoop = false
+//@   ghost at after NumField#0: total = ret
+//@   ghost at after NumField#0: inLoop = true
+//@   ghost at after processField#0: done = done + 1
+//@   loop 0: invariant 0 <= i && i <= numFields && done == i && numFields == total && inLoop
+//@   call processField#*: assert arg_m == m && arg_fullName == fullName
+//@   ensures implies(result == nil, inLoop && done == total)
+
+//@ func (u *Unmarshaler) processAnonymousFieldRequired
+//@   property C08
+//@   requires m != nil
+//@   ghost at entry: done = 0
+//@   ghost at entry: named = false
+//@   ghost at after processField#0: done = done + 1
+//@   ghost at after processNamedField#0: named = (ret == nil)
+//@   loop 0: invariant 0 <= i && i <= derefedFieldType.NumField() && done == i
+//@   call processField#*: assert arg_m == m
+//@   call processNamedField#*: assert arg_m == m
+//@   ensures implies(result == nil, named || done == Deref(field.Type).NumField())
+
+//@ func (u *Unmarshaler) processField
+//@   property C08
+//@   requires m != nil
+//@   call processAnonymousField#*: assert arg_m == m && field.Anonymous
+//@   call processNamedField#*: assert arg_m == m && !field.Anonymous
